@@ -30,11 +30,26 @@ def letter_table(ctx, rep):
         rep.case(n)
     # the generator used for connection names hands out 0, 1, 2, ... in order
     g = LetterIdGenerator()
-    names = [g.next() for _ in range(800)]
+    names = [g.next() for _ in range(min(top, 60000))]
     for i, nm in enumerate(names):
         if list(nm) != tab[i]['upper']:
             rep.violation('name-generator', 'the %d-th generated connection name is %r' % (i, nm), {'kind': 'letters', 'n': i})
             break
+    # ... and so do the connections of one session: the k-th connection opened is called ToCaps(k), however many there are
+    # (the table rows are what TLC compares with LetterId!ToCaps below)
+    S = e1.Session()
+    ncon = ctx.pick(3000, 60000)
+    seen = {}
+    for i in range(ncon):
+        S.cm.open_connection(float(i), 'conn-%d' % i, None if i % 3 else bool(i % 2))
+    for i, c in enumerate(S.cm.connections()):
+        nm = c.name()
+        if list(nm) != tab[i]['upper'] or nm in seen:
+            rep.violation('connection-name', 'the %d-th connection of a session is called %r%s' % (i, nm, ' as is the %d-th' % seen[nm] if nm in seen else ''),
+                          {'kind': 'letters', 'n': i})
+            break
+        seen[nm] = i
+    rep.extra['connections_named_in_one_session'] = ncon
     path = os.path.join(tlc.OUT, 'tmp', 'c14-%d.json' % os.getpid())
     json.dump(tab, open(path, 'w'))
     try:
